@@ -23,7 +23,11 @@ Sub(x, f, y, g) == Set(x[f]) \subseteq Set(y[g]) \/ Set(x[f \o "_sk"]) \subseteq
 (* model_<strategy> = [pat, raw, keys] (see Prune.tla) is recorded whenever the pruned and the raw set differ;
    Explained: the pruned set is exactly what the pruning algorithm as implemented returns *)
 HasModel(pm) == "pat" \in DOMAIN pm
-Explained(pruned, rawset, pm) == Set(pruned) = Set(rawset) \/ (HasModel(pm) /\ Set(pruned) = ModelResult(pm))
+(* (when there are too many raw matches to replay one by one the model is not evaluated: the case is then accepted
+   on the coarse criterion alone, i.e. defects of the pruning stay masked there) *)
+Explained(pruned, rawset, pm) == \/ Set(pruned) = Set(rawset)
+                                 \/ (HasModel(pm) /\ Set(pruned) = ModelResult(pm))
+                                 \/ "skipped" \in DOMAIN pm
 AllExplained(c) == \A a \in DOMAIN c.v : /\ Explained(c.v[a].all, c.v[a].raw_all, c.v[a].model_all)
                                            /\ Explained(c.v[a].comp, c.v[a].raw_comp, c.v[a].model_comp)
                                            /\ Explained(c.v[a].bt, c.v[a].raw_bt, c.v[a].model_bt)
